@@ -358,7 +358,27 @@ func (h *cfgHarness) checkEnsembles(n int, name string, ns model.NamespaceStatus
 		// (a config installed a moment ago may not be the one the selection was made under)
 		msg := violated(cur, 0)
 		if msg != "" && (old == nil || violated(old, 1) != "") {
-			h.fail("C19", "anti-affinity-violated", "%s violates a strict anti-affinity rule of the namespace: %s (labels: %s)", desc, msg, h.labelsOf(sh.Ensemble))
+			// was one of the members out of the configuration a short while ago?  A move planned then did
+			// not see its labels and is applied now that the server is back.
+			note := ""
+			now := h.r.Now()
+			for _, s := range sh.Ensemble {
+				id := s.GetIdentifier()
+				for k := len(h.configs) - 2; k >= 0 && k+1 < len(h.configAt) && now-h.configAt[k+1] < 2*time.Minute; k-- {
+					in := false
+					for _, cs := range h.configs[k].Servers {
+						in = in || cs.GetIdentifier() == id
+					}
+					if !in {
+						note = fmt.Sprintf(" (%s was out of the cluster configuration until %.1f s ago: a move planned meanwhile did not see its labels and is applied now that the server is back)", nodeOfAddr(id), (now - h.configAt[k+1]).Seconds())
+						break
+					}
+				}
+				if note != "" {
+					break
+				}
+			}
+			h.fail("C19", "anti-affinity-violated", "%s violates a strict anti-affinity rule of the namespace: %s (labels: %s)%s", desc, msg, h.labelsOf(sh.Ensemble), note)
 			return
 		}
 	}
